@@ -288,7 +288,7 @@ def run_dump(out, prop, tier, seed, only_slices=None):
                 out.add_drift('mibdump %s differs from MibDump.tla for %s: observed exit=%s proc=%s written=%s; model exit=%s proc=%s written=%s' % (
                     v['drift'], brief_world(w, fmt), obs['exit'], {p['name']: p['st'] for p in obs['proc']}, obs['written'],
                     v['mexit'], {p['name']: p['st'] for p in v['mproc']}, v['mfiles']))
-    never = [a for a in ('DArgs', 'DCompile', 'DIndex', 'DReport', 'DExit', 'Gen', 'Bor', 'BSea', 'Write', 'Decide') if out.extra.get('action_coverage', {}).get(a, 0) == 0]
+    never = [a for a in ('DArgs', 'DCompile', 'DIndex', 'DReport', 'DExit') if out.extra.get('action_coverage', {}).get(a, 0) == 0]
     if never and not only_slices:
         out.machinery_errors.append('actions of MibDump never taken in this run (vacuous): %s' % never)
     if not only_slices:
